@@ -25,11 +25,19 @@ Three obligations connect the writer's XML text to what the reader reports:
     `PrototypeOK_of_validate`, `RecordNameOK_of_validate`, `NoImagesShadow_of_validate`.
     Known asymmetry kept visible: incomplete limits are not stored (`PointCloud.stored`,
     `PointCloud.roundtrip_statement_false`).
- C. (differential, on every run) XML text → tree is roxmltree's: for every generated program whose
-    last finalize is a plain `finalize()` the writer suite compares the tree roxmltree reports for the
-    REAL writer's XML (token dump) with `MT.docTokens (MT.rootDoc …)` of the model — field `T` of the
-    writer protocol.  (`parseTree (docTokens d) = some d` could only be tested, the driver's parser
-    is a `partial def`.)
+ C. (proved + differential) XML text → tree.  `E57/Spec/XmlParse.lean` is a total XML parser that follows
+    roxmltree 0.20.0 decision for decision (differentially tested against the real crate: engine `xml`,
+    `E57/Drv/Xml.lean`); `E57/Proofs/XmlRender.lean` proves `XmlP.parse_render`
+    (`Dialect exts t → parseDocument (renderDoc exts t) = some ⟨t, rootNamespaces exts⟩`) and
+    `E57/Proofs/XmlRoundTrip.lean` proves `XmlP.rootTree_dialect` and the capstone
+    `XmlP.C04_text_roundtrip : (serializeRoot …).bind parseDocument = MT.rootDoc …` under `XmlP.InputOK`
+    (strings/URLs are XML characters, names passed `validate_xml_name`, `ExtsOk`, floats print as
+    `[0-9a-zA-Z+.-]+`), `XmlP.cdata_roundtrip` (EVERY string of XML characters, CR and `]]>` included),
+    `XmlP.attr_roundtrip`, and `XmlP.formatNameUnescaped` (the former hypothesis of A is a theorem).
+    The comparison of the REAL writer's XML (token dump of roxmltree) with `MT.docTokens (MT.rootDoc …)`
+    — field `T` of the writer protocol — remains as the differential link to the real crate.
 -/
 import E57.Model.MetaTree
 import E57.Proofs.MetaRoundTrip
+import E57.Proofs.XmlRoundTrip
+import E57.Proofs.XmlBridge
